@@ -564,6 +564,21 @@ def run(ctx):
                f"({T.show(muts[0].args[0])[-60:] if muts else ''}) before the loop: the resumed run diverges from the uninterrupted one",
                disc=(muts[0].args[0][2] if muts and muts[0].args[0][0] == "attr" else ""))
 
+    # ---- the objects the restore wrote into (generator, history) are still the sampler's when the loop starts
+    rest_ev = [e for e in sf_res.events("restore_from_checkpoint", in_loop=False)]
+    if rest_ev:
+        rseq = min(e.seq for e in rest_ev)
+        for obj_, attr_, val_, node_, func_, seq_ in sf_res.ev.stores:
+            if obj_ != SELF or attr_ not in ("rng", "history") or func_ is not sample or seq_ < rseq:
+                continue
+            if node_ is not None and sf_res.in_loop(node_):
+                continue
+            ctx.refute("C11.reentry", sample.ident, loc_of(sample, node_),
+                       f"on the resumed path self.{attr_} is assigned after restore_from_checkpoint() has put the checkpointed "
+                       + ("generator state into the object it replaces: the resumed run continues with the new object's own (seed) state, so resampling "
+                          "and kernel draws differ from the uninterrupted run" if attr_ == "rng" else "history into it: the restored record is dropped"),
+                       disc=f"replaced|{attr_}")
+    ctx.count("restore_calls_on_resumed_path", len(rest_ev))
     # ---- a run resumed from a finished checkpoint does not iterate again
     if lpr is not None:
         guard_names = [n for n in walk_no_nested(sample.node) if isinstance(n, ast.If) and loop_node in n.body]
@@ -889,6 +904,7 @@ MUTANTS = [
     M("iteration key renamed on the writer side", _SB, "\"iteration\": iteration,", "\"iter\": iteration,", ("C11.keys", "C11.state")),
     M("checkpoint before mutation", _B, "samples = self.mutate(samples, beta)\n                if store_sample_history:\n                    self.history.sample_history.append(samples)\n                maybe_checkpoint()",
       "maybe_checkpoint()\n                samples = self.mutate(samples, beta)\n                if store_sample_history:\n                    self.history.sample_history.append(samples)", "C11.cut"),
+    M("per-call generator installed after the checkpoint was restored", _B, "self.target_efficiency = target_efficiency\n", "if checkpoint_callback is not None and hasattr(checkpoint_callback, \"rng\"):\n            self.rng = checkpoint_callback.rng\n        self.target_efficiency = target_efficiency\n", "C11.reentry"),
     M("resumed run re-records the restored population", _B, "if store_sample_history and not resumed:", "if store_sample_history:", "C11.reentry"),
     M("bytes source unsupported", _SB, "elif isinstance(source, bytes):\n            state = pickle.loads(source)\n", "", "C11.src"),
     M("instance primed only when the file has no checkpoint", _A, "if checkpoint_bytes is not None:\n            aspire._resume_from_default = checkpoint_bytes", "if checkpoint_bytes is None:\n            aspire._resume_from_default = checkpoint_bytes", "C11.prime"),
